@@ -1,10 +1,27 @@
-(* C10 No lost wake-up. Proved here for every reachable state and every script: whenever the library arms the timer it
-   arms it for exactly the node's height and view at that instant (the clause the seeded change C10 breaks).
-   The "always armed / non-negative" clauses are decided by the monitor on the real code and the correspondence run;
-   the negative duration at high views is known finding D10 (DESIGN.md C10). *)
+(* C10 No lost wake-up (node model, every history, every script).
+   The timer is a ghost of the history: [timer_after] - armed by the last TimerReset of an API call; otherwise as before,
+   except that delivering the expiry it was armed for consumes it.  [Run cfg st tm]: st and tm are reached by Start on a
+   fresh instance followed by ANY API calls with ANY callback answers, as long as the answers make the node a validator
+   that is not watch-only whenever it is asked ([Val]: every WatchOnly answer false, every key-pair index a position).
+   Proved: (1) whenever control returns from a call and the node has not accepted a block for its height, the timer is armed
+   for exactly its height and view; (2) a timeout delivered for that height and view re-arms it; (3) every arming names the
+   node's height and view at that instant.
+   NOT proved, and false of the code: "with a non-negative duration" - the back-off shift overflows int64 at high views
+   (known finding D10, replayed on the real code by corpus scenario D10). *)
 From Coq Require Import ZArith List.
-From DbftV Require Import Gates.
+From DbftV Require Import Gates P10.
 Open Scope Z_scope.
+
+Theorem undecided_validator_always_has_a_timer_for_its_epoch cfg st tm :
+  Run cfg st tm -> blockProcessed st = false -> tm = Some (BlockIndex st, ViewNumber st).
+Proof. exact (fun HR => proj2 (proj2 (run_inv cfg st tm HR))). Qed.
+Print Assumptions undecided_validator_always_has_a_timer_for_its_epoch.
+
+Theorem timeout_for_the_current_epoch_rearms_the_timer cfg h v s0 :
+  blockProcessed s0 = false -> 0 <= MyIndex s0 -> h = BlockIndex s0 -> v = ViewNumber s0 ->
+  hx s0 (OnTimeout cfg h v) (fun _ _ tr => Val tr -> exists s h' v' d, In (s, CTimerReset h' v' d) tr).
+Proof. exact (timeout_rearms cfg h v false s0). Qed.
+Print Assumptions timeout_for_the_current_epoch_rearms_the_timer.
 
 Theorem timer_is_armed_for_the_current_epoch cfg st ev sc st' tr s h v d :
   Reach cfg st -> step cfg st ev sc = Ok (st', tr) -> In (s, CTimerReset h v d) tr -> h = BlockIndex s /\ v = ViewNumber s.
